@@ -460,6 +460,9 @@ class ExecMixin:
                                 yield o
                     yield from rec2(0, st1)
                     continue
+                if ls is None and self.proves_quick(st1, n == 0, 300):
+                    yield Outcome('normal', st1)       # provably no iteration
+                    continue
                 if ls is None:
                     raise SpecError('loop %s of %s (line %d) needs an invariant' % (k, self.current_fn, s.lineno))
             yield from self.cut_loop(s, st1, k, ls, itv)
@@ -484,10 +487,12 @@ class ExecMixin:
                 n, el = self.iter_domain(itv, rec, s.iter)
                 i = fresh_const('rit', z3.IntSort())
                 rec.pc.append(z3.And(0 <= i, i < n))
+                rec.env['it%s' % k] = SV(INT, i)
                 self.bind_target(s.target, el(i), rec)
                 body_in = [rec]
             else:
                 body_in = []
+                rec.env['it%s' % k] = SV(INT, fresh_const('rit', z3.IntSort()))
                 for c, st1 in self.ev_or_raise(s.test, rec):
                     if not isinstance(c, Outcome):
                         body_in.append(st1)
